@@ -32,7 +32,9 @@ EXTENDS Integers, Sequences, FiniteSets, TLC
 
 CONSTANTS Callers,   \* caller (thread) names
           Keys,      \* cache keys
-          Idx,       \* Keys -> lock-table index (equal index = colliding 16-bit hashes)
+          Idx,       \* Keys -> lock-table index (equal index = colliding 16-bit hashes).  A function of the key ALONE:
+                     \* every caller, thread or spawned process, must compute the same index (c19.slot_agreement
+                     \* binds this by starting caller processes with different string-hash salts)
           DiskLike,  \* TRUE: an entry is visible to `in` while it is being written
           ProgSet    \* set of program assignments [Callers -> Seq(op)] TLC may choose from
 
